@@ -438,7 +438,8 @@ impl PacketContents {
         // The chunk count is a `u8` in the packet header.
         self.num_chunks < u8::MAX
             // current size + chunk header + chunk length
-            && self.data.len() + protocol::chunk_header_size(vital) + data.len() <= MAX_PAYLOAD
+            && self.data.len() + protocol::chunk_header_size(vital) + data.len()
+                <= MAX_PACKETSIZE - protocol::HEADER_SIZE
     }
     fn clear(&mut self) {
         *self = PacketContents::new();
